@@ -4,7 +4,8 @@ worktree /tmp/mutverify (never /repo): (1) demo passes on clean HEAD, (2) patch 
 (3) workspace test suite passes with the patch, (4) demo fails with the patch.  Writes
 /verif/seeded/<Cxx>/<k>/verify.json."""
 import sys, os, subprocess, json, time, glob, shutil, re
-WT = '/tmp/mutverify'
+WT = os.environ.get('SEEDVERIFY_WT', '/tmp/mutverify')
+JOBS = os.environ.get('SEEDVERIFY_JOBS', '16')
 def sh(c, **k):
     return subprocess.run(c, shell=True, text=True, stdout=subprocess.PIPE, stderr=subprocess.STDOUT, **k)
 def ensure():
@@ -22,7 +23,7 @@ def run_demo(pid, k, meta):
         shutil.copytree(src, d + '/demo')
         if not os.path.exists(d + '/demo/Cargo.lock'):
             shutil.copy('/repo/Cargo.lock', d + '/demo/Cargo.lock')
-        cmd = 'cd %s/demo && CARGO_NET_OFFLINE=true CARGO_TARGET_DIR=%s/target/demo_%s timeout 3000 cargo run --offline -q' % (d, WT, pid)
+        cmd = 'cd %s/demo && CARGO_NET_OFFLINE=true CARGO_TARGET_DIR=%s/target/demo_%s timeout 3000 cargo run --offline -q -j %s' % (d, WT, pid, JOBS)
     else:
         return None, 'no demo dir'
     r = sh(cmd)
@@ -41,7 +42,7 @@ def main():
         out['patch_applies'] = r.returncode == 0
         if r.returncode == 0:
             t = time.time()
-            r = sh('cd %s && CARGO_NET_OFFLINE=true timeout 5400 cargo test --workspace --no-fail-fast --offline' % WT)
+            r = sh('cd %s && CARGO_NET_OFFLINE=true timeout 5400 cargo test --workspace --no-fail-fast --offline -j %s' % (WT, JOBS))
             res = re.findall(r'test result: (\w+)\. (\d+) passed; (\d+) failed', r.stdout)
             out['suite_exit'] = r.returncode
             out['suite_passed'] = sum(int(x[1]) for x in res)
